@@ -166,6 +166,8 @@ def run(run, tier, loadcfg):
         ht = HeapTypes(facts)
         nbodies = 0
         controls = 0
+        # the documented reuse of processor-owned storage may be spread over private helpers that only process() reaches
+        graph_group = confined_helpers(facts, GRAPH_PROCESS)
         for body in sorted(facts.bodies.values(), key=lambda b: b['path']):
             if body['crate'] not in CRATES:
                 continue
@@ -179,7 +181,7 @@ def run(run, tier, loadcfg):
                 run.ok('heap.exception', fn, cfg, nontrivial=bool(effects),
                        sample={'reason': why, 'heap effects seen': [e[1] for e in effects][:4]} if effects and len(run.samples) < 12 else None)
                 continue
-            if fn == GRAPH_PROCESS:
+            if fn in graph_group or body.get('root') in graph_group:
                 bad = None
                 for kind, detail, line in effects:
                     if kind == 'call' and detail in GRAPH_OK:
